@@ -493,7 +493,13 @@ func (ms *MidState) reviseFileContractElement(fce types.FileContractElement, rev
 
 func (ms *MidState) resolveFileContractElement(fce types.FileContractElement, valid bool, txid types.TransactionID) {
 	fced := ms.recordFileContractElement(fce.ID)
-	fced.FileContractElement = fce.Copy()
+	// If the contract was already revised within this block, fce is the
+	// revised contract; the diff must keep the element as it was before the
+	// block (with the revision recorded separately), otherwise reverting the
+	// block restores the wrong contract and computes the wrong leaf hash.
+	if fced.Created || fced.Revision == nil {
+		fced.FileContractElement = fce.Copy()
+	}
 	fced.Resolved = true
 	fced.Valid = valid
 	ms.spends[fce.ID] = txid
